@@ -359,8 +359,19 @@ func (g *G) fileEntry(i int, typ string) *Content {
 	return c
 }
 
+// directories that belong to the distribution's filesystem package; declaring
+// one explicitly (to set owner/mode) is legal and must be honoured everywhere
+var fsOwnedDirs = []string{"/var/spool/mail", "/etc/sysconfig", "/usr/local/share/man/man1", "/var/log", "/usr/share/licenses", "/etc/logrotate.d", "/usr/lib/systemd/system", "/opt", "/var/cache"}
+
 func (g *G) dirEntry(i int) *Content {
 	d := g.dstFor(i)
+	if g.r.P(1, 5) {
+		if cand := rng.Pick(g.r, fsOwnedDirs); !g.used[cand] {
+			g.used[cand] = true
+			d = cand
+			g.c.Feature("explicit-dir-at-filesystem-owned-path")
+		}
+	}
 	c := &Content{Type: "dir", Dst: d, FI: g.fi(true), Shape: "dir"}
 	if g.r.P(1, 3) {
 		c.Dst += "/"
@@ -629,6 +640,7 @@ type ChangelogEntry struct {
 // changelog writes a chglog-format YAML file and points the spec at it.
 func (g *G) changelog() {
 	n := g.r.Range(1, 3)
+	noNotes := g.r.P(1, 6) // no entry has notes at all
 	var b strings.Builder
 	for i := 0; i < n; i++ {
 		e := ChangelogEntry{
@@ -636,11 +648,18 @@ func (g *G) changelog() {
 			Date:     g.mtime(),
 			Packager: fmt.Sprintf("Packager %d <p%d@example.com>", i, i),
 		}
-		for k := g.r.Range(1, 3); k > 0; k-- {
+		nn := g.r.Range(1, 3)
+		if noNotes || g.r.P(1, 5) {
+			nn = 0 // a bare entry without a changes list (e.g. "first release")
+		}
+		for k := nn; k > 0; k-- {
 			e.Notes = append(e.Notes, fmt.Sprintf("note %s %d", g.word(0), g.r.Intn(1000)))
 		}
 		g.c.ChangelogEntries = append(g.c.ChangelogEntries, e)
-		fmt.Fprintf(&b, "- semver: %q\n  date: %s\n  packager: %q\n  changes:\n", e.Semver, TimeRaw(e.Date).Y, e.Packager)
+		fmt.Fprintf(&b, "- semver: %q\n  date: %s\n  packager: %q\n", e.Semver, TimeRaw(e.Date).Y, e.Packager)
+		if len(e.Notes) > 0 {
+			b.WriteString("  changes:\n")
+		}
 		for _, nt := range e.Notes {
 			fmt.Fprintf(&b, "    - note: %q\n", nt)
 		}
